@@ -97,7 +97,7 @@ open Bytes
 /-- Static facts about one party that honest processing relies on and preserves. -/
 structure PartyOk (S : Suite) (X : HS) : Prop where
   inv : SymInv X.sym
-  sPub : X.s.val.pub = S.pubOf X.s.val.priv
+  sPub : X.s.on = true → X.s.val.pub = S.pubOf X.s.val.priv
   ePub : X.fixedE = true → X.e.val.pub = S.pubOf X.e.val.priv
 
 theorem nonce_succ (n : UInt64) (h : n ≠ CipherState.nonceMax) : (n + 1).toNat = n.toNat + 1 := by
